@@ -40,11 +40,10 @@ def s_rails(ctx, shape, warns=None, phase=None):
                     else:
                         ctx.check("no-rails=>same-cell", Eq(a, b), info={"col": c})
         return
-    if rep is None:
-        ctx.fail("rail-report-returned", info={"why": "rail_rep() returned None"})
-        return
     rep_rows = {}
-    for _, r in rep.iterrows():
+    # rail_rep() returns None when rails are defined but none of them feeds a component: it then lists no rail, which is
+    # what the property allows only if indeed no rail has a consumer - the loop below demands exactly that
+    for _, r in (rep.iterrows() if rep is not None else ()):
         rep_rows[(r["Phase"] if "Phase" in rep.columns else "", r["Rail"])] = r
     phases = list(durations) if durations and not phase else [phase or ""]
     for ph in phases:
@@ -96,7 +95,8 @@ META.update({
                    "listed, no rails => identical to solve().",
     "functions": ["system.System.rail_rep 1191-1250", "system.System.solve 956-975 (rail-in labelling)", "system.System.add_comp 483-490"],
     "bounds": "shape catalogue below (<= 7 nodes, <= 3 rails, <= 2 sources, <= 1 mux), 2 phases",
-    "outside": "systems whose only rails have no consumers (rail_rep returns None there)",
+    "outside": "the TYPE of the result when no declared rail has a consumer (rail_rep returns None there, which lists no rail; the check "
+               "then demands that no rail can have a consumer)",
 })
 
 
